@@ -47,6 +47,13 @@ def sources(tier, wd, out, per_focus_quick=250, per_focus_thorough=1200, foci=FO
                      '<g opacity="0.5"><rect width="4" height="4"/>%s</g><rect x="6" width="3" height="3"/>'):
             res.append(("family/unsupported-in-group", '<svg xmlns="http://www.w3.org/2000/svg" viewBox="0 0 16 16">'
                         '<g opacity="0.5">%s</g><rect x="9" y="9" width="5" height="5"/></svg>' % (body % u), None))
+    # ids are XML names, not ASCII words
+    for gid in ("Dégradé_sans_nom_2", "Безымянный_градиент", "渐变-3", "g.1", "_x-y"):
+        for tf in ("", ' transform="translate(2,1)"'):
+            res.append(("family/unicode-ids", '<svg xmlns="http://www.w3.org/2000/svg" viewBox="0 0 16 16"><defs>'
+                        '<linearGradient id="%s" x2="0.5"><stop offset="0" stop-color="red"/><stop offset="1" stop-color="blue"/>'
+                        '</linearGradient></defs><rect x="1" y="1" width="9" height="9" fill="url(#%s)"%s/>'
+                        '<rect x="5" y="5" width="4" height="4"/></svg>' % (gid, gid, tf), None))
     # numbers Python prints in exponent form (no decimal point in the whole path data)
     for d in ('M0,0 L10,0 L10,0.00001 L0,10 Z', 'M0 0 L10 0 L10 1e-5 L0 10 Z', 'M2e-7 0 L10 0 L10 8 Z',
               'M0,0 L10,0 L10,0.00003 L0,10 Z M1,1 L2,1 L2,2 Z', 'M0 0 h10 v1e-05 L0 10 z',
